@@ -1174,6 +1174,19 @@ pub fn m11(ix: &Index, include_converse: bool) -> Vec<Violation> {
             }
         }
     }
+    // (d') the decoder's verdict depends on the bytes of the current connection only: a connection on which every server
+    // byte came from the reference encoder must never see a decoding error, whatever happened on earlier connections
+    // (whole-history converse below is restricted to histories without any adversarial action)
+    if include_converse && tr.adversarial_used {
+        for (i, e) in tr.evs.iter().enumerate() {
+            if let Ev::Call { kind: CallKind::Incoming, result: Err(EK::Decoding), msg, post_error: false, t, conn: Some(c), .. } = e {
+                let tainted = tr.evs[..i].iter().any(|x| matches!(x, Ev::SrvSend { conn: cc, compliant: false, .. } if cc == c));
+                if !tainted {
+                    out.push(v("C11.compliant_server_blamed", format!("Decoding error on a connection whose server bytes were all well-formed: {}", msg.chars().map(|ch| if ch.is_ascii_digit() { '#' } else { ch }).take(80).collect::<String>()), format!("t={} conn {} {}", t, c, msg)));
+                }
+            }
+        }
+    }
     // (d) converse
     if include_converse && !tr.adversarial_used && !tr.unasked_service_used {
         for e in &tr.evs {
